@@ -185,12 +185,15 @@ def run(chk):
     if chk.require("R1 lenient members", "R1|helper|PossiblyUnknown", len(pu) == 1, SER, "the Deserialize impl of the sequence's element wrapper (%s) not found" % (elem or "?")):
         chk.touched(pu[0])
         outs = normal.rows(S, pu[0], N, expand=False)
-        inner = set()
-        for o in outs:
-            v = dict(o.value[3]).get("0") if o.value[0] == "agg" else None
-            if v and v[0] == "agg":
-                inner.add(v[2])
-        ok = len(outs) >= 2 and all(o.variant[:1] == ("Ok",) for o in outs) and inner >= {"Some", "None"}
+        # never an error: the element's own deserializer may fail, and both of its outcomes end in Ok — the success side with
+        # the element in it, the failure side with the "unknown" value (whatever the wrapper looks like: an enum of its own,
+        # a newtype around Option, ...)
+        is_inner_de = lambda x: is_call(x, "Deserialize::deserialize")
+        on_ok = [o for o in outs if any(flow.asserts_ok(t, l, is_inner_de) for t, l, f, w in o.conds)]
+        on_err = [o for o in outs if any(flow.asserts_fail(t, l, is_inner_de) for t, l, f, w in o.conds)]
+        carries = lambda o: flow.term_contains(o.value, lambda x: isinstance(x, tuple) and len(x) == 2 and x[0] == "payload" and flow.term_contains(x[1], is_inner_de))
+        ok = len(outs) >= 2 and all(o.variant[:1] == ("Ok",) for o in outs) and bool(on_ok) and bool(on_err) and all(carries(o) for o in on_ok) and not any(carries(o) for o in on_err) \
+            and not any(flow.strip_sites(a.value) == flow.strip_sites(b_.value) for a in on_ok for b_ in on_err)
         lenient_elem = ok
         chk.ob("R1 lenient members", "R1|helper|PossiblyUnknown|maps-error-to-unknown", ok, where(pu[0]), "outcomes: %s" % [(o.vstr(), flow.term_str(o.value)[:60]) for o in outs])
     if len(vs) == 1:
@@ -200,6 +203,10 @@ def run(chk):
         if push:
             conds = flow.conditions(p, b, push[0][0])
             guarded = any(c[0] == "discr" for sb, l, c in conds)
+        else:
+            # `array.extend(opt)`: an Option extends by its content when it has one
+            ext = [t for bb, t in b.calls() if names.call_is(t, "Extend::extend", "Vec::extend") and any(g.replace(" ", "").startswith("core::option::Option<") for g in (t.get("gargs") or []))]
+            guarded = len(ext) == 1
         chk.ob("R1 lenient members", "R1|helper|ignore_unknown_opt_vec|drops-unknown-elements", len(pu) == 1 and guarded, where(b), "elements are read as %s and pushed only when known: %s" % (elem.rsplit("::", 1)[-1], guarded))
     iv = fn("ignore_unknown_vec")
     if iv is not None:
